@@ -363,6 +363,7 @@ impl ServerProc {
     /// Wait until `n` workers have printed their start-up block, or the process exits, or a
     /// worker panicked (stderr), or the deadline passes. Returns the number of blocks seen.
     pub fn wait_started(&mut self, n: usize, timeout: Duration) -> usize {
+        static HUNG_STARTS: std::sync::atomic::AtomicUsize = std::sync::atomic::AtomicUsize::new(0);
         let start = Instant::now();
         let mut last_change = Instant::now();
         let mut last = (0usize, 0usize);
@@ -374,7 +375,14 @@ impl ServerProc {
                 last = (seen, errlen);
                 last_change = Instant::now();
             }
-            if seen >= n || self.try_status().is_some() || start.elapsed() > timeout {
+            if seen >= n || self.try_status().is_some() {
+                return seen;
+            }
+            // a start-up that prints nothing for a long time is stuck: no point in waiting out the
+            // whole timeout (shorter once several starts of this run were stuck: a broken tree)
+            let quiet = if HUNG_STARTS.load(std::sync::atomic::Ordering::Relaxed) >= 3 { Duration::from_secs(3) } else { Duration::from_secs(8) };
+            if start.elapsed() > timeout || last_change.elapsed() > quiet {
+                HUNG_STARTS.fetch_add(1, std::sync::atomic::Ordering::Relaxed);
                 return seen;
             }
             // a worker panicked and nothing has moved for a while: start-up is over
